@@ -137,6 +137,19 @@ class Report:
         self.undecided = ''
         self.explanation = ''
         self.extra = {}
+        self.broken = []
+
+    def attempt(self, fn, *args, **kw):
+        """run one rule family; an analysis that cannot be carried out (vanished anchor, unrecognised shape, internal error) is recorded and reported as
+        ANALYSIS-BROKEN at the end, but does not keep the other rules of the property from being evaluated"""
+        try:
+            return fn(*args, **kw)
+        except AnalysisBroken as e:
+            self.broken.append(str(e))
+        except Exception as e:
+            import traceback
+            traceback.print_exc()
+            self.broken.append('internal error in %s: %s: %s' % (getattr(fn, '__module__', '?') + '.' + getattr(fn, '__name__', '?'), type(e).__name__, str(e)[:200]))
 
     def rule(self, rid, text, floor=0, unit='instances'):
         r = Rule(rid, text, floor, unit)
@@ -160,10 +173,11 @@ class Report:
         self.extra['configurations'] = ['default'] + cfgs
         for c, out, p in jobs:
             txt, _ = p.communicate()
-            if p.returncode == 2 or not os.path.exists(out):
+            if p.returncode == 2 or not os.path.exists(out) or 'ANALYSIS-BROKEN' in txt:
                 r = self.rule('SUBRUN@' + c, 'the check could be evaluated in configuration %s' % c, floor=1, unit='runs')
                 r.notes.append((re.findall(r'ANALYSIS-BROKEN[^\n]*', txt) or [txt[-300:]])[0])
-                continue
+                if p.returncode == 2 or not os.path.exists(out):
+                    continue
             d = json.load(open(out))
             for rr in d['rules']:
                 r = Rule(rr['id'] + '@' + c, rr['text'], 0, rr['unit'])
@@ -181,7 +195,9 @@ class Report:
             json.dump(dict(property=self.pid, config=cfg, rules=rules), f, default=str)
         nf = sum(len(r.failures) for r in self.rules)
         print('SUBRUN property=%s config=%s rules=%d failures=%d' % (self.pid, cfg, len(self.rules), nf))
-        return 0
+        for b in self.broken:
+            print('ANALYSIS-BROKEN property=%s %s' % (self.pid, b))
+        return 2 if self.broken and not nf else 0
 
     def load_known(self):
         if not os.path.exists(KNOWN):
@@ -200,7 +216,7 @@ class Report:
             self.run_subconfigs()
         known, fixed = self.load_known()
         knownkeys = {e['key']: e for e in known}
-        broken = []
+        broken = list(self.broken)
         for r in self.rules:
             if r.instances < r.floor:
                 broken.append('rule %s: %d %s found, floor confirmed by hand is %d' % (r.id, r.instances, r.unit, r.floor))
@@ -259,9 +275,9 @@ class Report:
                 continue
             printed.add(f['key'])
             print('KNOWN-FINDING: property=%s %s [%s] %s' % (self.pid, e.get('what', f['what']), f['rule'], f['where']))
-        if broken:
-            for b in broken:
-                print('ANALYSIS-BROKEN property=%s %s' % (self.pid, b))
+        for b in broken:
+            print('ANALYSIS-BROKEN property=%s %s' % (self.pid, b))
+        if broken and not viol:
             return 2
         if viol:
             os.makedirs(REPLAY_DIR, exist_ok=True)
